@@ -358,6 +358,10 @@ def render_range(fn):
         elif st[0] == "copy":
             out += [f"  let p{k + 1} := {s}.copy {L(st[2])}", f"  let s{k + 1} := p{k + 1}.1", f"  let {L(st[1])} : Nat := p{k + 1}.2"]
             k += 1
+        elif st[0] == "nathalf":
+            # `offset = int((window_size - 1) / 2)`: only used as the begin offsets of the block loop, which T8 reads from the
+            # same source (`Generated.Blocks.multiscaleRange`); nothing to print here
+            continue
         elif st[0] == "alias":
             out.append(f"  let {L(st[1])} : Nat := {L(st[2])}")
         elif st[0] == "view":
@@ -508,6 +512,8 @@ def evaluate_range(fn, mi, store, ny, nx, dm, flags, nats, users, consts, t8, zo
             if env["scale_factor"] == st[1]:
                 a, b = env[st[2][0]], env[st[2][1]]
                 return a, b, shapes[a]
+        elif st[0] == "nathalf":
+            continue  # the begin offsets of the block loop: T8's (see render_range)
         elif st[0] == "zoom":
             f = env["scale_factor"]
             k = store.alloc(do_zoom((st[3], st[4]), store.arr[env[st[2]]], f))
